@@ -118,22 +118,26 @@ Section Spec.
   (** the names tried for a match decide when the selector accepts one of them *)
   Lemma matched_decides sel m x :
     first_sel sel s (match_names lower is_space c) = Some (m, x) ->
-    from_cache_x lower is_space sel s (l_cfg c) (l_sni c) (l_ip c) = Some (x, true, m).
+    from_cache_x lower is_space sel (l_conn c) s (l_cfg c) (l_sni c) (l_ip c) = Some (x, true, m).
   Proof.
     unfold match_names, Model.from_cache_x. destruct (is_nil (normalize (l_sni c))).
-    - cbn [first_sel]. destruct (sel s (l_ip c)); [|discriminate]. intros H; injection H as <- <-. reflexivity.
+    - destruct (l_conn c); cbn [first_sel]; [|discriminate].
+      destruct (sel s (l_ip c)); [|discriminate]. intros H; injection H as <- <-. reflexivity.
     - intros ->. reflexivity.
   Qed.
   Lemma unmatched_defaults sel x b v :
     first_sel sel s (match_names lower is_space c) = None ->
-    from_cache_x lower is_space sel s (l_cfg c) (l_sni c) (l_ip c) = Some (x, b, v) ->
+    from_cache_x lower is_space sel (l_conn c) s (l_cfg c) (l_sni c) (l_ip c) = Some (x, b, v) ->
     b = false /\
     ((is_nil (normalize (l_sni c)) = true /\ is_nil (default_name (l_cfg c)) = false /\
       v = normalize (default_name (l_cfg c)) /\ sel s v = Some x) \/
      (is_nil (fallback_name (l_cfg c)) = false /\ v = normalize (fallback_name (l_cfg c)) /\ sel s v = Some x)).
   Proof.
     unfold match_names, Model.from_cache_x, try_fallback_x. destruct (is_nil (normalize (l_sni c))).
-    - cbn [first_sel]. destruct (sel s (l_ip c)); [discriminate|]. intros _.
+    - assert (Hnone : first_sel sel s (if l_conn c then [l_ip c] else []) = None ->
+                      (if l_conn c then sel s (l_ip c) else None) = None).
+      { destruct (l_conn c); cbn [first_sel]; [|reflexivity]. destruct (sel s (l_ip c)); [discriminate | reflexivity]. }
+      intros Hfs. rewrite (Hnone Hfs).
       destruct (is_nil (default_name (l_cfg c))).
       + destruct (is_nil (fallback_name (l_cfg c))); [discriminate|].
         destruct (sel s (normalize (fallback_name (l_cfg c)))) eqn:E; [|discriminate].
@@ -149,6 +153,18 @@ Section Spec.
   Qed.
 
   (** ---- default policy ---- *)
+  Lemma first_listed_first_sel (cands : list name) :
+    match first_listed s cands with
+    | Some m => exists x, first_sel (select_cert supf validf) s cands = Some (m, x) /\ select_cert supf validf s m = Some x
+    | None => first_sel (select_cert supf validf) s cands = None
+    end.
+  Proof.
+    destruct (first_listed s cands) as [m|] eqn:E.
+    - apply first_listed_some in E. destruct E as (pre & post & -> & Hpre & Hm).
+      exact (first_select_first supf validf s pre m post Hpre Hm).
+    - apply first_listed_none in E. apply (first_select_none supf validf). exact E.
+  Qed.
+
   Lemma spec_default : l_policy c = PDefault ->
     spec_lookup_o lower is_space c (obs_of c (fst (run_lookup lower is_space c))) = true.
   Proof.
@@ -156,42 +172,25 @@ Section Spec.
     assert (Hself : self c = select_cert supf validf) by (unfold self; rewrite Hp; reflexivity).
     unfold spec_lookup_o, run_lookup. rewrite Hp, Hself.
     fold s. change (Check.supf c) with supf. change (Check.validf c) with validf.
-    unfold match_names.
-    set (n := normalize (l_sni c)).
-    set (rr := lookup_x lower is_space (select_cert supf validf) s (l_cap c) (l_cfg c) (l_sni c) (l_ip c) (l_envx c)).
-    destruct rr as [r post] eqn:Err. cbn [fst snd].
-    destruct (first_listed s (if is_nil n then [l_ip c] else n :: wildcard_candidates n)) as [m|] eqn:Efl.
+    set (sel := select_cert supf validf).
+    destruct (lookup_x lower is_space sel (l_conn c) s (l_cap c) (l_cfg c) (l_sni c) (l_ip c) (l_envx c)) as [r post] eqn:Err.
+    cbn [fst snd].
+    pose proof (first_listed_first_sel (match_names lower is_space c)) as Hfl.
+    destruct (first_listed s (match_names lower is_space c)) as [m|].
     - (* a preferred name is listed: it decides *)
-      assert (Hr : exists x, r = ROk x /\ select_cert supf validf s m = Some x).
-      { apply first_listed_some in Efl. destruct Efl as (pre & post' & Hc & Hpre & Hm).
-        destruct (is_nil n) eqn:En.
-        - apply is_nil_true in En. destruct pre as [|p pre]; cbn [app] in Hc.
-          + injection Hc as <- _. destruct (from_cache_ip lower is_space supf validf s (l_cfg c) (l_sni c) (l_ip c) En Hm) as (x & Hf & Hs).
-            exists x. split; [|exact Hs]. unfold rr, lookup_x in Err. rewrite from_cache_x_default, Hf in Err. congruence.
-          + injection Hc as _ Hc. destruct pre; discriminate.
-        - apply is_nil_false in En.
-          destruct (from_cache_matched_first lower is_space supf validf s (l_cfg c) (l_sni c) (l_ip c) pre m post' En Hc Hpre Hm) as (x & Hf & Hs).
-          exists x. split; [|exact Hs]. unfold rr, lookup_x in Err. rewrite from_cache_x_default, Hf in Err. congruence. }
-      destruct Hr as (x & -> & Hs). cbn [obs_of].
+      destruct Hfl as (x & Hfs & Hs).
+      pose proof (matched_decides sel m x Hfs) as Hf. unfold lookup_x in Err. rewrite Hf in Err.
+      injection Err as <- _. cbn [obs_of].
       destruct (selected_ok m x Hs) as (Hc & Hl & Hrn & Hg & Hsp).
       unfold goodb in Hg. rewrite (complete_of_cached x Hc), Hl, Hrn, Hg, Hsp. reflexivity.
     - (* nothing listed under a preferred name *)
-      apply first_listed_none in Efl.
       destruct r as [|x]; cbn [obs_of]; [reflexivity|].
-      unfold rr in Err. destruct (lookup_x_cases _ _ _ _ _ _ _ _ _ _ _ Err) as [(b & v & Hf)|(x0 & Hlo & Hfr & -> & _)].
-      + rewrite from_cache_x_default in Hf. apply from_cache_some in Hf.
-        destruct Hf as [x m pre post' Hn Hc Hpre Hs|x Hn Hs|x Hn Hip Hd Hs|x Hnone Hfb Hs].
-        * exfalso. fold n in Hn, Hc. apply is_nil_false in Hn. rewrite Hn in Efl.
-          unfold name in *. rewrite Hc in Efl. apply Forall_app in Efl. destruct Efl as [_ Efl].
-          inversion Efl as [|? ? Hm _]; subst. apply (proj2 (select_none supf validf s _)) in Hm. congruence.
-        * exfalso. fold n in Hn. rewrite Hn in Efl. cbn [is_nil] in Efl.
-          inversion Efl as [|? ? Hm _]; subst. apply (proj2 (select_none supf validf s _)) in Hm. congruence.
-        * fold n in Hn. destruct (selected_ok _ x Hs) as (Hc & Hl & Hrn & _ & _).
-          rewrite (complete_of_cached x Hc), Hn, Hl, Hrn. cbn [is_nil andb].
-          apply is_nil_false in Hd. rewrite Hd. reflexivity.
+      destruct (lookup_x_cases _ _ _ _ _ _ _ _ _ _ _ _ Err) as [(b & v & Hf)|(x0 & Hlo & Hfr & -> & _)].
+      + destruct (unmatched_defaults sel x b v Hfl Hf) as (_ & [(Hn & Hd & -> & Hs)|(Hfb & -> & Hs)]).
         * destruct (selected_ok _ x Hs) as (Hc & Hl & Hrn & _ & _).
-          rewrite (complete_of_cached x Hc), Hl, Hrn. apply is_nil_false in Hfb. rewrite Hfb.
-          cbn [negb andb]. rewrite orb_true_r. reflexivity.
+          rewrite (complete_of_cached x Hc), Hn, Hd, Hl, Hrn. reflexivity.
+        * destruct (selected_ok _ x Hs) as (Hc & Hl & Hrn & _ & _).
+          rewrite (complete_of_cached x Hc), Hfb, Hl, Hrn. cbn [negb andb]. rewrite orb_true_r. reflexivity.
       + rewrite (complete_of_loaded _ x0 Hlo), (loaded_ok_of_load x0 Hlo Hfr). cbn [andb].
         rewrite !orb_true_r. reflexivity.
   Qed.
@@ -203,7 +202,7 @@ Section Spec.
     intros Hp. unfold spec_lookup_o, run_lookup.
     fold s.
     set (sel := self c) in *.
-    destruct (lookup_x lower is_space sel s (l_cap c) (l_cfg c) (l_sni c) (l_ip c) (l_envx c)) as [r post] eqn:Err.
+    destruct (lookup_x lower is_space sel (l_conn c) s (l_cap c) (l_cfg c) (l_sni c) (l_ip c) (l_envx c)) as [r post] eqn:Err.
     cbn [fst snd].
     assert (Hcase : match l_policy c with PDefault => False | _ => True end) by (destruct (l_policy c); [congruence | exact I ..]).
     assert (Hgoal :
@@ -236,7 +235,7 @@ Section Spec.
             eapply (sel_policy_in_cache (Check.supf c) (Check.validf c) names_of (l_cap c)); eauto. }
           rewrite (complete_of_cached x' Hc), str_eqb_refl. cbn [andb].
           apply amem_alookup. eauto.
-        + destruct (lookup_x_cases _ _ _ _ _ _ _ _ _ _ _ Err) as [(b & v & Hf)|(x0 & Hl & Hfr & -> & _)].
+        + destruct (lookup_x_cases _ _ _ _ _ _ _ _ _ _ _ _ Err) as [(b & v & Hf)|(x0 & Hl & Hfr & -> & _)].
           * destruct (unmatched_defaults sel x b v Efs Hf) as (_ & [(Hn & Hd & -> & Hs)|(Hfb & -> & Hs)]).
             -- assert (Hc : alookup (c_hash x) (cache s) = Some x)
                  by (eapply (sel_policy_in_cache (Check.supf c) (Check.validf c) names_of (l_cap c)); eauto).
